@@ -5,12 +5,13 @@
 //! case format (see lean/EmitModel/Driver/C12.lean):
 //!   (c12 (cfg http|grpc proto|json GZIP LIMIT) (sig LOGS TRACES METRICS) (dead SIGNAL…)
 //!        (events (ev ID log|span|metric xMDL PAD SIZE)…)
-//!        (script (logs R…) (traces R…) (metrics R…)))
+//!        (script (logs R…) (traces R…) (metrics R…)) (end flush|drop))
 //!   R ::= ack | ackbody | (status N) | (grpc N) | (grpch N) | stall | rstb | rsta
 //!   LIMIT = request size limit (hook H4), PAD = length of the `pad` text property, SIZE = length of the encoded
 //!   event payload (measured by the generator on the real encoder; re-checked on the wire by the runner).
+//!   end: `flush` = call `blocking_flush`; `drop` = drop the emitter instead and wait for its worker thread to end.
 //! output:
-//!   logs=[E…] traces=[E…] metrics=[E…] flush=B       E ::= <ids joined by , | ?>:<resp>:<n|r>
+//!   logs=[E…] traces=[E…] metrics=[E…] flush=B|dropped       E ::= <ids joined by , | ?>:<resp>:<n|r>
 //!   one E per request the endpoint saw, in arrival order; n = arrived on a new connection, r = reused.
 //!
 //! Protocol of one case (deterministic batch composition): per configured live signal a *primer* event is emitted
@@ -67,6 +68,7 @@ struct Case {
     dead: [bool; 3],
     events: Vec<Ev>,
     script: [Vec<Resp>; 3],
+    drop: bool,
 }
 
 fn sig_index(s: Signal) -> usize {
@@ -178,6 +180,7 @@ impl Case {
                     "script",
                     (0..3).map(|i| Sexp::tagged(sig_names[i], self.script[i].iter().map(|r| resp_sexp(*r)).collect())).collect(),
                 ),
+                Sexp::tagged("end", vec![Sexp::atom(if self.drop { "drop" } else { "flush" })]),
             ],
         )
         .to_string()
@@ -186,9 +189,18 @@ impl Case {
     fn parse(line: &str) -> Option<Case> {
         let s = Sexp::parse(line)?;
         let (tag, a) = s.as_tagged()?;
-        if tag != "c12" || a.len() != 5 {
+        if tag != "c12" || a.len() != 6 {
             return None;
         }
+        let (t, e) = a[5].as_tagged()?;
+        if t != "end" || e.len() != 1 {
+            return None;
+        }
+        let drop = match e[0].as_atom()? {
+            "flush" => false,
+            "drop" => true,
+            _ => return None,
+        };
         let (t, c) = a[0].as_tagged()?;
         if t != "cfg" || c.len() != 4 {
             return None;
@@ -268,7 +280,7 @@ impl Case {
         if transport == Transport::Http && script.iter().flatten().any(|r| matches!(r, Resp::GrpcStatus(_) | Resp::GrpcStatusHeaders(_))) {
             return None; // an OTLP/HTTP endpoint does not speak grpc-status
         }
-        Some(Case { transport, enc, gzip, limit, sig, dead, events, script })
+        Some(Case { transport, enc, gzip, limit, sig, dead, events, script, drop })
     }
 
     /// Where `OtlpInner::emit` sends a well-formed event of this kind (C14): its own signal when configured,
@@ -362,6 +374,31 @@ const LONG: Duration = Duration::from_secs(30);
 
 // ------------------------------------------------------------------ runner
 
+/// Wait until no `emit_otlp_worker` thread is left in this process (the `Otlp` handle does not expose its worker;
+/// the kernel truncates the thread name to 15 bytes).
+fn wait_workers_gone(timeout: Duration) -> bool {
+    let deadline = std::time::Instant::now() + timeout;
+    loop {
+        let mut alive = false;
+        if let Ok(dir) = std::fs::read_dir("/proc/self/task") {
+            for t in dir.flatten() {
+                if let Ok(name) = std::fs::read_to_string(t.path().join("comm")) {
+                    if name.trim_end() == "emit_otlp_worke" {
+                        alive = true;
+                    }
+                }
+            }
+        }
+        if !alive {
+            return true;
+        }
+        if std::time::Instant::now() >= deadline {
+            return false;
+        }
+        std::thread::sleep(Duration::from_micros(500));
+    }
+}
+
 fn show_entry(r: &Recorded, fresh: bool) -> String {
     let ids = match &r.records {
         None => "?".to_string(),
@@ -403,12 +440,23 @@ fn run_c12(line: &str) -> String {
         emit_event(&otlp, e.id, e.kind, &e.mdl, e.pad);
     }
     let discarded = otlp.metric_source().event_discarded() - discarded0;
-    c.release();
-    let flushed = otlp.blocking_flush(LONG);
-    let log = c.take_log();
     let m = otlp.metric_source();
+    let flushed;
+    if case.drop {
+        // the emitter goes away with everything still queued; its worker must finish the work on its own
+        drop(otlp);
+        c.release();
+        flushed = wait_workers_gone(LONG);
+        if !flushed {
+            return "harness-error:worker-thread-did-not-end".into();
+        }
+    } else {
+        c.release();
+        flushed = otlp.blocking_flush(LONG);
+        drop(otlp);
+    }
+    let log = c.take_log();
     let client_failures = m.transport_request_failed() + m.transport_conn_failed() + m.http_batch_failed() + m.grpc_batch_failed();
-    drop(otlp);
     set_hooks(usize::MAX, LONG);
 
     // ---- canonical output + the property evaluated on the observations alone
@@ -484,7 +532,7 @@ fn run_c12(line: &str) -> String {
             for e in case.events.iter().filter(|e| case.routed(e.kind) == Some(i)) {
                 let n = acked.get(&e.id).copied().unwrap_or(0);
                 if n == 0 && failures <= 10 {
-                    fail.get_or_insert(format!("flushed-but-id-{}-never-acknowledged", e.id));
+                    fail.get_or_insert(format!("{}-but-id-{}-never-acknowledged", if case.drop { "emitter-dropped-and-worker-ended" } else { "flushed" }, e.id));
                 }
                 if n > 1 && failures == 0 && client_failures == 0 {
                     fail.get_or_insert(format!("id-{}-acknowledged-{}-times-without-any-failure", e.id, n));
@@ -496,7 +544,11 @@ fn run_c12(line: &str) -> String {
         }
         out.push_str(&format!("{}=[{}]", s.name(), shown.join(" ")));
     }
-    out.push_str(&format!(" flush={}", flushed));
+    if case.drop {
+        out.push_str(" flush=dropped");
+    } else {
+        out.push_str(&format!(" flush={}", flushed));
+    }
     let expect_discards = case.events.iter().filter(|e| case.routed(e.kind).is_none()).count();
     if discarded != expect_discards {
         fail.get_or_insert(format!("discarded-{}-expected-{}", discarded, expect_discards));
@@ -631,7 +683,8 @@ fn gen_case(rng: &mut Rng, tier: Tier, next_id: &mut i64) -> Case {
             }
         }
     }
-    let mut case = Case { transport, enc, gzip, limit: 0, sig, dead, events, script };
+    let drop = rng.chance(1, 8);
+    let mut case = Case { transport, enc, gzip, limit: 0, sig, dead, events, script, drop };
     measure(&mut case);
     // the limit: chosen relative to the measured sizes so that batches span 1..5+ requests, including limits
     // that sit exactly on a running sum (the `>=` of the size rule)
